@@ -151,6 +151,13 @@ MaxInputFails(e, prev) ==
   \cup Clause("C18", "advertised maximum decreased as n grew",
               prev # <<>> => ((prev[1] <= e.n => prev[2] <= e.m) /\ (e.n <= prev[1] => e.m <= prev[2])))
 
+\* the same for buffer lengths beyond TLC's 32-bit integers (n, m as Big limbs; monotonicity against the previous such
+\* query is compared by the harness, `mono`)
+MaxInputBigFails(e) ==
+       Clause("C18", "advertised maximum exceeds the buffer length", ~BigLt(e.n, e.m))
+  \cup Clause("C18", "advertised maximum of a length-delimited body is not n", ~e.chunked => e.m = e.n)
+  \cup Clause("C18", "advertised maximum decreased as n grew", e.mono)
+
 \* a write of exactly the advertised maximum into an n-byte buffer
 MaxWriteFails(e) ==
   Clause("C18", "input of the advertised maximum size was not consumed by one write",
